@@ -125,10 +125,13 @@ def random_manifest_line(rng, i):
         (" digseed=%d" % rng.randrange(1000)) if rng.random() < 0.7 else "")
 
 
-def mut_lines(muts):
+def mut_lines(muts, thorough):
+    """TLC's decoder inputs. In the quick tier the bulk classes (every byte at 255 / 0, base64 damage) are logged summarised:
+    the verdict needs only the outcome; the informative comparison with the specification's decoder is kept for the other classes"""
     out = []
     for m in muts:
-        out.append("dec kind=%s/v%d/%d x=%s" % (m["kind"], m["v"], m["k"], bytes(m["chars"]).hex()))
+        nox = " nox=1" if not thorough and m["kind"] in ("max", "zero", "b64char", "b64pad") else ""
+        out.append("dec kind=%s/v%d/%d x=%s%s" % (m["kind"], m["v"], m["k"], bytes(m["chars"]).hex(), nox))
     return out
 
 
@@ -226,8 +229,22 @@ def judge(job, reuse=None):
         job["res"] = reuse["res"]
         job["same_as_plain"] = True
     else:
-        job["res"] = vlib.validate("ManifestTrace", job["trace"], timeout=1500)
+        job["res"] = validate(job["trace"])
     return job
+
+
+def validate(trace):
+    """vlib.validate with a work directory of its own (two traces are validated concurrently)"""
+    wd = os.path.join(os.path.dirname(trace), "tlc")
+    os.makedirs(wd, exist_ok=True)
+    r = vlib.tlc("ManifestTrace", "ManifestTrace.cfg", workers=1, timeout=1500, env={"TRACE": trace}, wd=wd)
+    res = r.results()
+    if not res:
+        raise vlib.MachineryError("trace validation produced no result (ManifestTrace on %s):\n%s" % (trace, r.out[-4000:]))
+    out = res[-1]
+    out["tlc_states"] = r.distinct
+    out["wall"] = r.dt
+    return out
 
 
 def account(chk, job):
@@ -300,7 +317,7 @@ def run(chk):
         chk.sample({"source": "roundtrip", "events": [{"tag": e.get("tag"), "enc": e["enc"], "dec": e.get("dec")} for e in rt["events"][:6]]})
     else:
         real = [bytes(e["uri"]["b"]) for e in rt["events"] if e["op"] == "rt" and e.get("exact") and e["enc"] == "ok"]
-        dec_lines = mut_lines(muts) + random_dec_lines(rng, 20000 if thorough else 1500, real)
+        dec_lines = mut_lines(muts, thorough) + random_dec_lines(rng, 20000 if thorough else 1500, real)
         # the two input sets are independent: validate them side by side, each first on the plain build and then
         # (same inputs) on the ASan+UBSan build
         def chain(first, lines, label):
